@@ -17,6 +17,9 @@ ENTRY = ["listener.parse", "__init__.load", "__init__.loads"]
 from ..py.eff import IMMUTABLE_CALLS
 
 
+PKG_PREFIX = "blackbird_python/blackbird/"
+
+
 def is_mutable_display(v):
     if isinstance(v, (ast.Dict, ast.List, ast.Set, ast.ListComp, ast.DictComp, ast.SetComp)):
         return True
@@ -99,6 +102,19 @@ def inventory(rep, E, ix):
         for d in list(a.defaults) + [x for x in a.kw_defaults if x is not None]:
             n += 1
             rep.check(not is_mutable_display(d), R, ix.site(f), "default argument `%s` of %s is not a mutable object" % (u(d), q), key="%s|default %s" % (q, u(d)))
+    # arguments bound once and for all by a module-level / class-level functools.partial are default arguments by another name
+    for m in ix.mods:
+        holders = [(m, n_) for n_ in ix.mods[m].body] + [("%s.%s" % (m, c.name), n_) for c in ix.mods[m].body if isinstance(c, ast.ClassDef) for n_ in c.body]
+        for where, st_ in holders:
+            if isinstance(st_, (ast.FunctionDef, ast.AsyncFunctionDef, ast.ClassDef)):
+                continue
+            for c in ast.walk(st_):
+                if isinstance(c, ast.Call) and u(c.func) in ("functools.partial", "partial", "functools.partialmethod", "partialmethod"):
+                    for d in list(c.args[1:]) + [k.value for k in c.keywords]:
+                        n += 1
+                        shared = [x for x in ast.walk(d) if is_mutable_display(x)]
+                        rep.check(not shared, R, "%s%s.py:%d %s" % (PKG_PREFIX, m, c.lineno, where), "argument `%s` bound by %s at import time is not a mutable object" % (" ".join(u(d).split())[:40], u(c.func)),
+                                  "every call of the partial object receives this one object", key="%s|partial %s" % (where, " ".join(u(d).split())[:40]))
     rep.info(R, "blackbirdParser/blackbirdLexer", "generated classes hold decisionsToDFA / sharedContextCache at class level: prediction caches, semantically transparent (trusted runtime)")
     # process-wide state of libraries and the interpreter
     SETTERS = ("np.seterr", "numpy.seterr", "np.seterrcall", "np.set_printoptions", "warnings.simplefilter", "warnings.filterwarnings", "warnings.resetwarnings", "sys.setrecursionlimit",
@@ -106,17 +122,16 @@ def inventory(rep, E, ix):
                "functools.cache", "cache")
     found = 0
     for q, f in ix.funcs.items():
+        decos = {id(x) for d in f.node.decorator_list for x in ast.walk(d)}         # memoising decorators: rule MEMO.1
         for c in ast.walk(f.node):
+            if id(c) in decos:
+                continue
             if isinstance(c, ast.Call) and u(c.func) in SETTERS:
                 found += 1
                 rep.bad(R, ix.site(f, c), "the package does not change process-wide library / interpreter state", "`%s` persists beyond the load (also when the load fails before any restore)" % " ".join(u(c).split())[:60],
                         key="%s|%s" % (q, u(c.func)))
             if isinstance(c, ast.Subscript) and u(c.value) == "os.environ" and isinstance(c.ctx, ast.Store):
                 rep.bad(R, ix.site(f, c), "the package does not change the process environment", key="%s|environ" % q)
-        for d in f.node.decorator_list:
-            if u(d).split("(")[0] in ("functools.lru_cache", "lru_cache", "functools.cache", "cache"):
-                found += 1
-                rep.bad(R, ix.site(f), "no function result is memoised across loads", "@%s keeps results (and their arguments) alive for the life of the process" % u(d), key="%s|memo" % q)
     if not found:
         rep.ok(R, "package", "no call changes process-wide library or interpreter state (np.seterr, warnings filters, recursion limit, locale, seeds, memoisation decorators)")
     return tables
